@@ -191,24 +191,24 @@ class Interval:
             # Exponent has single value
             if eval_expr(other.start) == 0:
                 return Interval.point(expr.Const(1))
-            elif eval_expr(other.start) == 2:
-                # Simple case
+            elif eval_expr(other.start) > 0 and eval_expr(other.start) % 2 == 0:
+                # Even power: not monotone on intervals containing negative numbers
                 if eval_expr(self.start) >= 0:
-                    return Interval(normalize_constant(self.start ** expr.Const(2)),
-                                    normalize_constant(self.end ** expr.Const(2)) \
+                    return Interval(normalize_constant(self.start ** other.start),
+                                    normalize_constant(self.end ** other.start) \
                         if not self.end.is_inf() else expr.POS_INF, self.left_open, self.right_open)
                 else:
                     es, ee = eval_expr(self.start), eval_expr(self.end)
                     if es == float('-inf'):
                         if ee <= 0:
-                            return Interval(normalize_constant(self.end ** expr.Const(2)), \
+                            return Interval(normalize_constant(self.end ** other.start), \
                                             expr.POS_INF, self.right_open, True)
                         elif ee > 0:
                             return Interval(expr.Const(0), expr.POS_INF, False, True)
                     elif es < 0:
                         if ee <= 0:
-                            return Interval(normalize_constant(self.end ** expr.Const(2)), \
-                                            normalize_constant(self.start ** expr.Const(2)), \
+                            return Interval(normalize_constant(self.end ** other.start), \
+                                            normalize_constant(self.start ** other.start), \
                                             self.right_open, self.left_open)
                         elif ee > 0:
                             if ee == float('inf'):
@@ -216,13 +216,13 @@ class Interval:
                             else:
                                 aee, aes = abs(ee), abs(es)
                                 if aes > aee:
-                                    return Interval(expr.Const(0), normalize_constant(self.start ** expr.Const(2)), \
+                                    return Interval(expr.Const(0), normalize_constant(self.start ** other.start), \
                                                     False, self.left_open)
                                 elif aes == aee:
-                                    return Interval(expr.Const(0), normalize_constant(self.start ** expr.Const(2)), \
+                                    return Interval(expr.Const(0), normalize_constant(self.start ** other.start), \
                                                     False, self.left_open and self.right_open)
                                 else:
-                                    return Interval(expr.Const(0), normalize_constant(self.end ** expr.Const(2)), \
+                                    return Interval(expr.Const(0), normalize_constant(self.end ** other.start), \
                                                     False, self.right_open)
                 return Interval.ropen(expr.Const(0), expr.POS_INF)
             elif eval_expr(other.start) > 0:
